@@ -141,10 +141,15 @@ func c07Gen(r *driver.Rand, thorough bool) *driver.Plan {
 		p.FnYields = 1 + r.Intn(2)
 	}
 	genSched(r, p)
+	if !isGenerator(sm.stage) && r.Chance(1, 8) {
+		p.SetX("uses", 2)
+	}
 	return p
 }
 
-func c07Build(e *driver.Env) { e.Data = BuildStage(e, "C07") }
+func c07BuildOne(e *driver.Env) { e.Data = BuildStage(e, "C07") }
+
+func c07Build(e *driver.Env) { driver.Phased(e, c07BuildOne, c07Final) }
 
 func c07Final(e *driver.Env) {
 	s := e.Data.(*Sys)
